@@ -1,16 +1,19 @@
 (* C19 — encoding/format conversion tools preserve every record and are reversible. *)
 From Coq Require Import List Arith NArith ZArith.
+From Coq Require Import Strings.Byte.
 Require Import CU.model.Prim CU.model.Types CU.model.Codec CU.model.Block CU.model.Vbs CU.model.Iso CU.model.Ipm CU.model.Tools.
 Require Import CU.spec.FramingSpec CU.spec.IsoSpec CU.proofs.ToolsProofs.
 Require CU.gen.GenConfig CU.gen.GenCodec.
 Import ListNotations.
 
-(* codecs between which conversion loses nothing: total, injective tables with the same repertoire *)
-Definition totalb (c : codec) : bool := forallb (fun o => match o with Some _ => true | None => false end) (ctable c).
-Definition covers (a b : codec) : bool :=      (* every character of a is encodable in b *)
-  forallb (fun o => match o with Some ch => match cenc b ch with Some _ => true | None => false end | None => true end) (ctable a).
-Definition compatibleb (a b : codec) : bool :=
-  codec_injb a && codec_injb b && totalb a && totalb b && covers a b && covers b a.
+(* The domain of the property is defined ONCE, in proofs/ToolsProofs.v (restating it here and closing the theorems
+   with `exact` against other constants of the same body makes the unifier unfold both):
+     totalb c            every byte of the table decodes;
+     covers a b          every character of table a is encodable in b;
+     compatibleb a b     := codec_injb a && codec_injb b && totalb a && totalb b && covers a b && covers b a
+                         (total, injective tables with the same repertoire: conversion loses nothing);
+     convertible_cfgb g  no element of g has a PAN or PAN-PREFIX processor (the tools' reader would return the masked /
+                         truncated value and the writer would write THAT back; nothing else is required). *)
 
 Section C19.
 Variable B : nat.
@@ -46,6 +49,19 @@ Theorem C19_ipm_records : forall cfg cdA cdB fa fb ms file,
               iread_all B maxlen cfg cdB out fb = iread_all B maxlen cfg cdA file fa.
 Proof. exact (c19_ipm_records B Bpos maxlen maxlen_ok). Qed.
 
+(* the same with both sides explicit (the equality above is not vacuous): the conversion succeeds, both files read to
+   the end and to the same records ds — ICC data are the VBytes values of ds, hence byte-identical — and ds are the
+   records C06 promises for the original file, one per message and in order *)
+Theorem C19_ipm_records_explicit : forall cfg cdA cdB fa fb ms file,
+  wf_cfgb cfg = true -> convertible_cfgb cfg = true -> compatibleb cdA cdB = true ->
+  Forall (fun m => wf_msgb cfg cdA m = true /\ forall b, dumps cfg cdA false m = Ok b -> (N.of_nat (length b) <= maxlen)%N) ms ->
+  ipm_file B cfg cdA fa ms = Ok file ->
+  exists out ds, convert B maxlen (cfg_nopds cfg) cfg cdA cdB fa fb file = Ok out /\
+                 iread_all B maxlen cfg cdA file fa = Ok (ds, End) /\
+                 iread_all B maxlen cfg cdB out fb = Ok (ds, End) /\
+                 Forall2 (CU.proofs.IpmProofs.agrees cfg) ms ds.
+Proof. exact (c19_ipm_records_explicit B Bpos maxlen maxlen_ok). Qed.
+
 Theorem C19_ipm_reversible : forall cfg cdA cdB fa fb ms file out,
   wf_cfgb cfg = true -> convertible_cfgb cfg = true -> compatibleb cdA cdB = true ->
   Forall (fun m => wf_msgb cfg cdA m = true /\ forall b, dumps cfg cdA false m = Ok b -> (N.of_nat (length b) <= maxlen)%N) ms ->
@@ -58,6 +74,7 @@ End C19.
 Print Assumptions C19_param_records.
 Print Assumptions C19_param_reversible.
 Print Assumptions C19_ipm_records.
+Print Assumptions C19_ipm_records_explicit.
 Print Assumptions C19_ipm_reversible.
 
 (* the three encodings of the property are pairwise compatible, and the packaged configuration is convertible
@@ -69,3 +86,17 @@ Theorem C19_packaged :
   convertible_cfgb CU.gen.GenConfig.packaged_bit_config = true.
 Proof. exact c19_packaged. Qed.
 Print Assumptions C19_packaged.
+
+(* a concrete instance: a two-record parameter file ("AB", "1"), unblocked latin_1, converted to 1014-blocked cp500
+   (block payload 3 to keep it readable) and back *)
+Example C19_example :
+  let l := mkcodec CU.gen.GenCodec.tbl_latin_1 in let e := mkcodec CU.gen.GenCodec.tbl_cp500 in
+  let orig := written 3 false [[x41; x42]; [x31]] in
+  let conv := [x00; x00; x00; x40; x40; x02; xc1; xc2; x40; x40; x00; x00; x00; x40; x40; x01; xf1; x00; x40; x40;
+               x00; x00; x00; x40; x40] in
+  orig = [x00; x00; x00; x02; x41; x42; x00; x00; x00; x01; x31; x00; x00; x00; x00] /\
+  conv = written 3 true [[xc1; xc2]; [xf1]] /\
+  pconvert 3 6000 l e false true orig = Ok conv /\
+  pconvert 3 6000 e l true false conv = Ok orig.
+Proof. vm_compute. repeat split. Qed.
+Print Assumptions C19_example.
